@@ -30,3 +30,25 @@ package expvar
 //@   requires w != nil && r != nil && r.URL != nil && e.Next != nil
 //@   modifies ghost:nextCalls, ghost:nextRet, ghost:bodyWrites
 //@   ensures [answers_itself_or_passes_on_once] (nextCalls == old(nextCalls) && result0 == 0 && result1 == nil && bodyWrites >= old(bodyWrites) + 2) || (nextCalls == old(nextCalls) + 1 && result0 == nextRet && hw == old(hw) && bodyWrites == old(bodyWrites))
+
+//@ unit setup_registers frames=on props=C11,C09 nilchecks=on filter=`expvar\.setup$`
+//@ // Every run of this directive's setup (casket runs it once per address of a server block) parses the directive's tokens
+//@ // ITSELF and, when that succeeds, registers exactly one handler for the site - after parsing, so the handler is built from
+//@ // what this very run read; a run whose parse fails registers nothing (C11: the error is the only outcome; C09: the
+//@ // handler exists from this directive's turn on)
+//@ use @verif/specs/stdlib.spec:casket_api
+//@ ghost parsedNow int
+//@ ghost registered int
+//@ func expVarParse
+//@   requires c != nil
+//@   modifies ghost:parsedNow
+//@   ensures parsedNow == old(parsedNow) + 1
+//@ extern (*github.com/tmpim/casket/caskethttp/httpserver.SiteConfig).AddMiddleware
+//@   modifies ghost:registered
+//@   ensures registered == old(registered) + 1
+//@ func publishExtraVars
+//@ func setup
+//@   requires c != nil && parsedNow == 0 && registered == 0
+//@   modifies ghost:parsedNow, ghost:registered
+//@   at call (*github.com/tmpim/casket/caskethttp/httpserver.SiteConfig).AddMiddleware before [registered_after_this_runs_own_parse] parsedNow == 1
+//@   ensures [one_handler_on_success_none_on_error] parsedNow == 1 && (result == nil ==> registered == 1) && (result != nil ==> registered == 0)
